@@ -107,3 +107,122 @@ contract(CMD + "StateResponse._parse",
              "indoor_within_one": "implies(payload[11] != 0xFF and (payload[15] & 0xF) <= 9, absf(self.indoor_temperature - coarse(payload[11])) < 1)",
              "outdoor_within_one": "implies(payload[12] != 0xFF and (payload[15] >> 4) <= 9, absf(self.outdoor_temperature - coarse(payload[12])) < 1)",
          })
+
+
+# ---- C13 / C14: validation and dispatch -----------------------------------------------------------------
+def body_check_ok(payload):
+    """C13: the body check byte matches the CRC-8 or the additive checksum of the body"""
+    return payload[-1] == crc8(payload[:-1]) or payload[-1] == addck(payload[:-1])
+
+
+def outer_ok(frame):
+    """C13: the frame checksum matches (two's complement of the sum of everything after the start byte)"""
+    return len(frame) >= 1 and frame[-1] == addck(frame[1:-1])
+
+
+def response_class_of(frame):
+    """documented dispatch: id 0xC0 state, 0xB5 (query type) capabilities, 0xB0/0xB1 properties,
+    0xC1 group 4 energy / group 5 humidity, anything else a plain Response"""
+    rid = frame[10]
+    if rid == 0xC0:
+        return StateResponse
+    if rid == 0xB5 and frame[9] == 0x03:
+        return CapabilitiesResponse
+    if rid == 0xB1 or rid == 0xB0:
+        return PropertiesResponse
+    if rid == 0xC1 and len(frame) > 13 and (frame[13] & 0xF) == 4:
+        return EnergyUsageResponse
+    if rid == 0xC1 and len(frame) > 13 and (frame[13] & 0xF) == 5:
+        return HumidityResponse
+    return Response
+
+
+contract(CMD + "Response.validate",
+         params={"payload": "memoryview"},
+         requires=["len(payload) >= 1"],
+         ensures={"accepted_only_if_body_check": "body_check_ok(payload)"},
+         raises={CMD + "InvalidResponseException": {"when": "not body_check_ok(payload)"}})
+
+contract(CMD + "StateResponse.__init__",
+         params={"self": "obj:" + CMD + "StateResponse", "payload": "memoryview"},
+         modifies=["self.*"],
+         calls_inline=[CMD + "StateResponse._parse", CMD + "StateResponse._parse_temperature"],
+         post_let={"D": "state_decode(payload)"},
+         ensures={"len": "len(payload) >= 16",
+                  "id": "self._id == payload[0] and self._payload == payload",
+                  "power": "self.power_on == D['power']", "mode": "self.operational_mode == D['mode']",
+                  "temperature": "self.target_temperature == D['temperature']", "fan": "self.fan_speed == D['fan']",
+                  "swing": "self.swing_mode == D['swing']", "turbo": "self.turbo == D['turbo']", "eco": "self.eco == D['eco']",
+                  "sleep": "self.sleep == D['sleep']", "fahrenheit": "self.fahrenheit == D['fahrenheit']",
+                  "purifier": "self.purifier == D['purifier']", "follow_me": "self.follow_me == D['follow_me']",
+                  "aux": "self.aux_heat == D['aux'] and self.independent_aux_heat == D['independent_aux']",
+                  "filter": "self.filter_alert == D['filter']", "display": "self.display_on == D['display']",
+                  "humidity": "self.target_humidity == D['humidity']",
+                  "freeze": "self.freeze_protection == D['freeze']",
+                  "indoor_unknown_iff_sentinel": "(self.indoor_temperature is None) == (payload[11] == 0xFF)",
+                  "outdoor_unknown_iff_sentinel": "(self.outdoor_temperature is None) == (payload[12] == 0xFF)"},
+         raises={"builtins.IndexError": {"when": "len(payload) < 16"}})
+
+contract(CMD + "Response.construct",
+         params={"frame": "bytes"},
+         calls_inline=[CMD + "StateResponse.__init__", CMD + "StateResponse._parse", CMD + "StateResponse._parse_temperature"],
+         rtype="union:obj:" + CMD + "StateResponse|obj:" + CMD + "CapabilitiesResponse|obj:" + CMD + "PropertiesResponse|obj:"
+               + CMD + "EnergyUsageResponse|obj:" + CMD + "HumidityResponse|obj:" + CMD + "Response",
+         ensures={"long_enough": "len(frame) >= 13",
+                  "outer_checksum": "outer_ok(frame)",
+                  "body_check_unless_properties": "isinstance(result, PropertiesResponse) or body_check_ok(frame[10:-1])",
+                  "dispatch": "type(result) is response_class_of(frame)",
+                  "payload": "result._payload == frame[10:-2] and result._id == frame[10]"},
+         raises={"msmart.frame.InvalidFrameException": {"when": "len(frame) < 13 or not outer_ok(frame)"},
+                 CMD + "InvalidResponseException": {}})
+
+
+# ---- capability and property lists (raise-set level here; functional contracts in capabilities.py) ------------
+CAP_KEYS = {
+    "anion": "bool", "aux_electric_heat": "bool", "breeze_away": "bool", "breeze_control": "bool", "breezeless": "bool",
+    "buzzer": "bool", "display_control": "bool", "energy_stats": "bool", "energy_setting": "bool", "energy_bcd": "bool",
+    "fahrenheit": "bool", "fan_silent": "bool", "fan_low": "bool", "fan_medium": "bool", "fan_high": "bool", "fan_auto": "bool",
+    "fan_custom": "bool", "filter_notice": "bool", "filter_clean": "bool", "humidity_auto_set": "bool",
+    "humidity_manual_set": "bool", "heat_mode": "bool", "cool_mode": "bool", "dry_mode": "bool", "auto_mode": "bool",
+    "aux_heat_mode": "bool", "aux_mode": "bool", "eco": "bool", "freeze_protection": "bool", "ieco": "bool",
+    "turbo_heat": "bool", "turbo_cool": "bool", "rate_select_2_level": "bool", "rate_select_5_level": "bool",
+    "self_clean": "bool", "smart_eye": "bool", "swing_horizontal_angle": "bool", "swing_vertical_angle": "bool",
+    "swing_horizontal": "bool", "swing_vertical": "bool", "wind_off_me": "bool", "wind_on_me": "bool",
+    "cool_min_temperature": "float", "cool_max_temperature": "float", "auto_min_temperature": "float",
+    "auto_max_temperature": "float", "heat_min_temperature": "float", "heat_max_temperature": "float", "decimals": "bool",
+}
+
+PROP_KEYS = {0x0009: "int[0,255]", 0x000A: "int[0,255]", 0x0015: "int[0,255]", 0x0018: "bool", 0x001A: "int[0,255]",
+             0x0039: "bool", 0x0042: "bool", 0x0043: "int[0,255]", 0x0048: "int[0,255]", 0x004B: "int[0,255]",
+             0x00E3: "bool", 0x021E: "int[0,255]"}
+
+fields(CMD + "CapabilitiesResponse", _capabilities="symdict:CAP_KEYS", _additional_capabilities="bool")
+fields(CMD + "PropertiesResponse", _properties="symdict:PROP_KEYS:enum:" + CMD + "PropertyId")
+
+contract(CMD + "CapabilitiesResponse._parse_capabilities",
+         params={"self": "obj:" + CMD + "CapabilitiesResponse", "payload": "memoryview"},
+         modifies=["self._capabilities", "self._additional_capabilities"],
+         raises={"builtins.IndexError": {}},
+         ensures={"has_count": "len(payload) >= 2"},
+         loops={"0": {"modifies": ["self._capabilities"],
+                      "havoc": {"self._capabilities": "symdict:CAP_KEYS", "caps": "memoryview"}}})
+
+contract(CMD + "CapabilitiesResponse.__init__",
+         params={"self": "obj:" + CMD + "CapabilitiesResponse", "payload": "memoryview"},
+         modifies=["self.*"],
+         raises={"builtins.IndexError": {}},
+         ensures={"id": "self._id == payload[0] and self._payload == payload"})
+
+contract(CMD + "PropertiesResponse._parse",
+         params={"self": "obj:" + CMD + "PropertiesResponse", "payload": "memoryview"},
+         modifies=["self._properties"],
+         raises={"builtins.IndexError": {}},
+         ensures={"has_count": "len(payload) >= 2"},
+         loops={"0": {"modifies": ["self._properties"],
+                      "havoc": {"self._properties": "symdict:PROP_KEYS:enum:" + CMD + "PropertyId", "props": "memoryview"}}})
+
+contract(CMD + "PropertiesResponse.__init__",
+         params={"self": "obj:" + CMD + "PropertiesResponse", "payload": "memoryview"},
+         modifies=["self.*"],
+         raises={"builtins.IndexError": {}},
+         ensures={"id": "self._id == payload[0] and self._payload == payload"})
